@@ -7,11 +7,12 @@ State: the base features, the model's overlay state after the history so far, th
 re-imported world, the first observation.  Per line the model recomputes the answer; the predicate is
 * `export`: the implementation's ranks rise strictly along every reference between two exported features and
   the file was sorted by rank (so every reference precedes its referrer) — `propfail export-order`;
-* `import`: `Apply` succeeds — `propfail import-fails`, with `class=yaml-null-string` when the model's text
-  layer says a document carries a string `null` / `~` (yaml.v2 slip), `class=import-intermediate-state` when
-  the rejected feature's own references are all present and the rejection comes from validating a referrer
-  or from S2 in a world that never existed during the edit history; `propfail import-missing-reference`
-  when the model finds one of the feature's own references missing (the ordering lemma would be violated);
+* `import`: `Apply` succeeds — `propfail import-fails`. The driver evaluates the model's
+  `applyGetsThrough` (validation = the structural skeleton + `planarLoopOK` for S2, exact on the harness's small
+  integer coordinates) on the SOURCE world and the order used: the answer must be `ok` iff it holds, `err@<id>`
+  of the first rejected document otherwise (a disagreement is a `diff`). `class=import-intermediate-state` is
+  literally its negation with the rejected feature's own references present; `propfail
+  import-missing-reference` when one of them is missing (the ordering lemma would be violated);
 * `obs2`: the whole observation equals `obs1` — `propfail reimport-differs`.
 -/
 open B6.Driver B6.Model.ChangeExport
@@ -181,6 +182,52 @@ def docW : Doc → String
   | .mods id add rm => s!"M{id}!{tagsW add}!" ++ "&".intercalate (sortStrs rm)
   | .feat f => "F" ++ featW f
 
+/-! ### S2 on the harness's coordinates: planar integer predicates -/
+
+def cross (o a b : Int × Int) : Int := (a.1 - o.1) * (b.2 - o.2) - (a.2 - o.2) * (b.1 - o.1)
+
+def sgn (x : Int) : Int := if x > 0 then 1 else if x < 0 then -1 else 0
+
+def onSeg (p q r : Int × Int) : Bool :=
+  min p.1 r.1 ≤ q.1 && q.1 ≤ max p.1 r.1 && min p.2 r.2 ≤ q.2 && q.2 ≤ max p.2 r.2
+
+/-- closed segments p1p2 and p3p4 share a point -/
+def segsMeet (p1 p2 p3 p4 : Int × Int) : Bool :=
+  let d1 := sgn (cross p3 p4 p1)
+  let d2 := sgn (cross p3 p4 p2)
+  let d3 := sgn (cross p1 p2 p3)
+  let d4 := sgn (cross p1 p2 p4)
+  (d1 != d2 && d3 != d4 && d1 * d2 ≤ 0 && d3 * d4 ≤ 0 && !(d1 == 0 && d2 == 0)) ||
+  (d1 == 0 && onSeg p3 p1 p4) || (d2 == 0 && onSeg p3 p2 p4) || (d3 == 0 && onSeg p1 p3 p2) || (d4 == 0 && onSeg p1 p4 p2)
+
+def area2 (ps : List (Int × Int)) : Int :=
+  match ps with
+  | [] => 0
+  | p0 :: _ => ((ps.zip (ps.drop 1 ++ [p0])).map fun (a, b) => a.1 * b.2 - b.1 * a.2).foldl (· + ·) 0
+
+/-- `loop.Validate() == nil && loop.Area() <= 2π` for a loop through (lat, lng) E7 vertices: at least three
+distinct vertices, no two non-adjacent edges meet, counter-clockwise (x = lng, y = lat); a path `[a, literal]`
+counts as closed for `Tags.ClosedPath` and gives the one-vertex loop -/
+def planarLoopOK (cs : List (String × String)) : Bool :=
+  match cs.mapM (fun c => do
+    let la ← c.1.toInt?
+    let lo ← c.2.toInt?
+    pure ((lo, la) : Int × Int)) with
+  | none => false
+  | some ps =>
+    let n := ps.length
+    let arr := ps.toArray
+    let edge := fun (i : Nat) => (arr[i]!, arr[(i + 1) % n]!)
+    let idx := List.range n
+    -- a single vertex is S2's empty (northern hemisphere) or full loop; two vertices are never valid
+    if n == 1 then ps.all (fun p => p.2 > 0) else
+    n ≥ 3 && ps.eraseDups.length == n &&
+    idx.all (fun i => idx.all fun j =>
+      if i < j && j != i + 1 && !(i == 0 && j == n - 1) then
+        !(segsMeet (edge i).1 (edge i).2 (edge j).1 (edge j).2)
+      else true) &&
+    area2 ps > 0
+
 /-! ### the family -/
 
 structure S where
@@ -249,12 +296,9 @@ def step (σ : S) (op impl : String) : S × Verdict :=
     match parseFeat w with
     | none => (σ, .bad)
     | some f =>
-      let v := σ.st.validateAdd b f
+      let v := σ.st.validateAddO planarLoopOK b f
       let σ' := { σ with st := if impl == "ok" then σ.st.addFeature b f else σ.st }
-      match v with
-      | .ok => (σ', judge impl "ok")
-      | .s2 => (σ', if impl == "ok" || impl == "err" then .ok else .diff "ok|err")
-      | _ => (σ', judge impl "err")
+      (σ', judge impl (if v == .ok then "ok" else "err"))
   | ["state1"] => (σ, judge impl (stateW σ.st))
   | "export" :: _ =>
     match parseRanks (sdrop op 7) with
@@ -293,43 +337,35 @@ def step (σ : S) (op impl : String) : S × Verdict :=
       let nm := mdocs.length
       let docs := (mdocs ++ exportFeats σ.st ord).map textDoc
       if docs.any isUnknown then (σ, .bad) else
-      -- run the documents; stop where the implementation stopped
-      let stopAt : Option String :=
-        if impl == "ok" then none else some (sdrop impl 4)
-      let rec run (s : St) (k : Nat) : List (Except TextErr Doc) → St × Option (String × String)
+      let acc := St.accepts planarLoopOK b
+      -- the first document the model's import stops at, and why
+      let rec run (s : St) (k : Nat) : List (Except TextErr Doc) → St × Option (String × Verd)
         | [] => (s, none)
         | .error _ :: _ =>
           let at_ := if k < nm then s!"mod{k}" else toString (ord.getD (k - nm) 0)
-          (s, some (at_, "undecodable"))
+          (s, some (at_, .fail))
         | .ok d :: rest =>
           match d with
-          | .mods .. => match importDoc b (fun _ _ => true) s d with
-            | some s' => run s' (k + 1) rest
-            | none => (s, none)
+          | .mods .. => run (rebuildDoc b s d) (k + 1) rest
           | .feat f =>
-            let v := s.validateAdd b f
-            let here := toString f.id
-            if stopAt == some here then
-              (s, some (here, match v with
-                | .ok => "unexplained"
-                | .missing => "missing"
-                | .fail => "own"
-                | .referrer => "referrer"
-                | .s2 => "s2"))
-            else if v == .missing || v == .fail || v == .referrer then (s, some (here, "model-rejects"))
-            else run (s.addFeature b f) (k + 1) rest
+            let v := s.validateAddO planarLoopOK b f
+            if v == .ok then run (s.addFeature b f) (k + 1) rest else (s, some (toString f.id, v))
       let (s', stop) := run St.empty 0 docs
+      -- the predicate of `apply_gets_through_of_valid`, on the source world
+      let decodable := docs.all (fun d => match d with
+        | .ok _ => true
+        | .error _ => false)
+      let gets := decodable && applyGetsThrough b acc σ.st ord
       match stop with
-      | none => ({ σ with imp := s', cls := none }, judge impl "ok")
+      | none =>
+        if !gets then ({ σ with imp := s', cls := none }, .bad)
+        else ({ σ with imp := s', cls := none }, judge impl "ok")
       | some (at_, why) =>
-        if impl != "err@" ++ at_ then ({ σ with imp := s' }, .diff ("err@" ++ at_ ++ " " ++ why))
+        if gets then ({ σ with imp := s' }, .bad)
+        else if impl != "err@" ++ at_ then ({ σ with imp := s' }, .diff ("err@" ++ at_))
         else
-          let cls := match why with
-            | "undecodable" => some "yaml-null-string"
-            | "referrer" => some "import-intermediate-state"
-            | "s2" => some "import-intermediate-state"
-            | _ => none
-          let clause := if why == "missing" then "import-missing-reference" else "import-fails"
+          let cls := if decodable && why != .missing then some "import-intermediate-state" else none
+          let clause := if why == .missing then "import-missing-reference" else "import-fails"
           ({ σ with imp := s', cls := cls },
             .propfail (clause ++ (match cls with
               | some c => " class=" ++ c
